@@ -116,6 +116,15 @@ func c07World(tp *Tape, env *Env) (*Plan, *Violation) {
 	withCmd := len(cfg.Handlers) > 0
 	n := tp.Int(2, 12, "norig")
 	ops := drawDynOps(tp, n, g.vars, 12, withCmd)
+	if tp.Chance(15, "hostclears") {
+		// a host that empties its storer on the way and writes names of its own before and after: the variables a
+		// runner holds then differ from a snapshot's in both directions (names it lacks, names it has on top)
+		at := tp.Int(0, len(ops), "clearat")
+		v1, v2 := numV(float64(tp.Int(0, 9, "hostn1"))), numV(float64(tp.Int(0, 9, "hostn2")))
+		ins := []Op{{K: "write", Var: "hostA", Val: &v1}, {K: "next", Arg: 0}, {K: "clear"}, {K: "write", Var: "hostB", Val: &v2}}
+		ops = append(append(append([]Op{}, ops[:at]...), ins...), ops[at:]...)
+		env.St.fault("host_clears_its_storer_on_the_way")
+	}
 	nexp := tp.Int(1, 8, "nexp")
 	if env.Thorough {
 		nexp = tp.Int(4, 16, "nexp")
@@ -419,7 +428,8 @@ func c07Exec(plan *Plan, st *Stats) *Violation {
 				if twin == nil || !replay(twin, e.C, e.Shift) {
 					continue
 				}
-				before, storeBefore := canonSnap(T.h.dr.Snapshot()), T.h.StoreCanon()
+				keptBefore := T.h.dr.Snapshot() // a save the host keeps across the refused load
+				before, storeBefore := canonSnap(keptBefore), T.h.StoreCanon()
 				bogus := &ysgo.Snapshot{CurrentNode: "no_such_node_", Variables: yarnValues(map[string]Val{"zz": numV(99)}), VisitedNodes: map[string]int{"zz": 7}}
 				hollow := ei%2 == 1 && snaps[e.K] != nil
 				if hollow {
@@ -452,6 +462,10 @@ func c07Exec(plan *Plan, st *Stats) *Violation {
 						viol = v
 						return
 					}
+				}
+				if c := canonSnap(keptBefore); !c.equal(before) {
+					viol = &Violation{Clause: "C07.I1", OpIndex: ei, Expected: before.String(), Observed: c.String(), Note: "a snapshot taken before a refused restore changed while the runner went on afterwards"}
+					return
 				}
 				if st != nil {
 					st.fault("restore_unknown_node")
@@ -522,6 +536,35 @@ func c07Exec(plan *Plan, st *Stats) *Violation {
 					if v := compareStep("C07.I3", ei, xi, T, R, &op, true); v != nil {
 						viol = v
 						return
+					}
+				}
+			}
+			if ei%3 == 0 && !e.Pair {
+				// second generation: a save of the loaded game (the restored runner's own snapshot, taken after it
+				// was driven on) and the reference runner's snapshot at the same point are equal (compared above); each
+				// is restored into a fresh runner of its own, and the two must go on alike
+				sT, sR := T.h.dr.Snapshot(), R.h.dr.Snapshot()
+				U, V := mk(), mk()
+				if U != nil && V != nil {
+					eu, pu := safeRestore(U, sT)
+					ev, pv := safeRestore(V, sR)
+					if (eu == nil) != (ev == nil) || (pu == nil) != (pv == nil) {
+						viol = &Violation{Clause: "C07.I3", OpIndex: ei, Expected: fmt.Sprint(ev, pv), Observed: fmt.Sprint(eu, pu), Note: "second generation: restoring the restored runner's own snapshot and the reference runner's equal snapshot do not succeed alike"}
+						return
+					}
+					if eu == nil && pu == nil {
+						U.last, V.last = Resp{}, Resp{}
+						for xi, arg := range []int{0, 1, 0, 2, 0} {
+							op := Op{K: "next", Arg: arg}
+							if v := compareStep("C07.I3", ei, xi, U, V, &op, true); v != nil {
+								v.Note += " - second generation: a fresh runner restored from the RESTORED runner's own later snapshot against one restored from the reference runner's"
+								viol = v
+								return
+							}
+						}
+						if st != nil {
+							st.probe("second_generation_snapshot_restored")
+						}
 					}
 				}
 			}
